@@ -65,7 +65,7 @@ def client(port, script, pace, log, barrier=None):
     """script: list of ('send', bytes) | ('barrier',) | ('close',) ; waits for a reply after every send except EOT"""
     try:
         s = socket.create_connection(("127.0.0.1", port), timeout=5)
-        s.settimeout(3)
+        s.settimeout(10)
         for step in script:
             if step[0] == "barrier":
                 if barrier is not None:
@@ -271,7 +271,7 @@ def one_run(r, fmt, ctx, stream, burst=False):
         # wait for the archive to settle
         problems = []
         exp_decl = declarative_files(fmt, [sc[1] for sc in scripts], problems)
-        deadline = time.time() + 5
+        deadline = time.time() + 20          # generous: on success the loop ends at once
         while time.time() < deadline:
             if len(os.listdir(outdir)) >= len(exp_decl):
                 break
